@@ -200,7 +200,9 @@ def main(repo, data_dir, out, order='f', mode='full', carry=None):
             try:
                 wl = wn.Wordnet(lemmatizer=m, **kw)
                 wl0 = wn.Wordnet(lemmatizer=m0, **kw)
-                for form in [str(x.lemma()) for x in sel_words] + \
+                lemmas = [str(x.lemma()) for x in w.words()]
+                shared = sorted({f for f in lemmas if lemmas.count(f) > 1})[:6]
+                for form in [str(x.lemma()) for x in sel_words] + shared + \
                         [str(x.lemma()) + 's' for x in sel_words] + ['cats', 'lights', 'ran']:
                     s['lemmatized:' + form] = [call(wl.words, form), call(wl.senses, form),
                                                call(wl.synsets, form), call(wl0.words, form),
@@ -280,12 +282,54 @@ def main(repo, data_dir, out, order='f', mode='full', carry=None):
         conn.close()
     wn._db.pool.clear()
     d1 = dump()
+    stateful = failed_call_leaves_state(wn, call)
     carried = []
     if carry:
         carried = carried_arguments(wn, carry, call, c)
     with open(out, 'w', encoding='utf-8') as f:
-        json.dump({'reps': reps, 'dump_before': d0, 'dump_after': d1, 'carried': carried},
-                  f, ensure_ascii=False)
+        json.dump({'reps': reps, 'dump_before': d0, 'dump_after': d1, 'carried': carried,
+                   'stateful': stateful}, f, ensure_ascii=False)
+
+
+def failed_call_leaves_state(wn, call):
+    """A read-only call that FAILS (the caller's lemmatizer or normalizer raises, as wrapped
+    NLP tools do) must not change what later calls on the same Wordnet object return."""
+    class Boom(ValueError):
+        pass
+
+    def lemmatizer(form, pos=None):
+        if form == 'boom':
+            raise Boom(form)
+        base = form[:-1] if form.endswith('s') and len(form) > 1 else form
+        return {pos: {form, base}}
+
+    def normalizer(form):
+        if form == 'boom':
+            raise Boom(form)
+        return form.lower()
+    out = []
+    for kw in ({'lemmatizer': lemmatizer}, {'normalizer': normalizer},
+               {'lemmatizer': lemmatizer, 'normalizer': normalizer}):
+        try:
+            w = wn.Wordnet(**kw)
+        except wn.Error:
+            continue
+        forms = [str(x.lemma()) for x in w.words()[:3]]
+        forms += [f + 's' for f in forms] + [f.upper() for f in forms]
+        before = [[call(w.words, f), call(w.senses, f), call(w.synsets, f)] for f in forms]
+        for fn in (w.words, w.senses, w.synsets):
+            try:
+                fn('boom')
+            except Boom:
+                pass
+            except Exception:
+                pass
+        after = [[call(w.words, f), call(w.senses, f), call(w.synsets, f)] for f in forms]
+        if before != after:
+            i = next(k for k in range(len(forms)) if before[k] != after[k])
+            out.append({'options': sorted(kw), 'form': forms[i], 'before': before[i],
+                        'after': after[i]})
+    return out[:3]
 
 
 def carried_arguments(wn, carry, call, c):
